@@ -54,10 +54,10 @@ package skchia
 // lastDequeued[q]: the space id most recently removed from plotter queue q by Delete (ghost)
 //@ ghost lastDequeued map[int]int
 //@ func (*plotterQueue).Delete
-//@   attr trusted
+//@   requires pq != nil && pq.Prque != nil
 //@   requires lock-entry: !held[addr(pq.Mutex)]
-//@   modifies lastDequeued[pq]
-//@   ensures pq.poppedItem == old(pq.poppedItem)
+//@   modifies lastDequeued[pq], pq.Prque
+//@   ensures the-popped-item-is-not-touched-by-a-queue-deletion: pq.poppedItem == old(pq.poppedItem)
 //@   ensures dequeues-that-space: lastDequeued[pq] == sid
 
 //@ spec func skUnlocked(sk *SpaceKeeper) bool = !held[addr(sk.stateLock)] && !rheld[addr(sk.stateLock)] && sk.queue != nil && !held[addr(sk.queue.Mutex)]
